@@ -65,14 +65,18 @@ impl Concrete {
     }
 }
 
+/// One transport with its listener channels. Everything a control action touches is shared, so that the
+/// same action can also run inside a scheduling-point callback in the middle of `receive()`.
+#[derive(Clone)]
 struct World {
-    t: RtpTransport,
-    tx: Vec<mpsc::Sender<Item>>,
-    rx: Vec<Option<mpsc::Receiver<Item>>>,
-    c: Concrete,
-    seq: u16,
-    full: Vec<bool>, // listeners whose channel the scenario filled up (their receiver "is not reading")
-    _sock: watch::Sender<Option<IceSocketWrapper>>,
+    t: Arc<RtpTransport>,
+    tx: Arc<Vec<mpsc::Sender<Item>>>,
+    rx: Arc<parking_lot::Mutex<Vec<Option<mpsc::Receiver<Item>>>>>,
+    c: Arc<Concrete>,
+    seq: Arc<parking_lot::Mutex<u16>>,
+    // listeners whose channel the scenario filled up (their receiver "is not reading")
+    full: Arc<parking_lot::Mutex<Vec<bool>>>,
+    _sock: Arc<watch::Sender<Option<IceSocketWrapper>>>,
 }
 
 fn fresh(cfg: &Value, rng: &mut Rng) -> World {
@@ -93,7 +97,11 @@ fn fresh(cfg: &Value, rng: &mut Rng) -> World {
         tx.push(a);
         rx.push(Some(b));
     }
-    World { t, tx, rx, c, seq: rng.next() as u16, full: vec![false; NL], _sock: sock_tx }
+    World {
+        t: Arc::new(t), tx: Arc::new(tx), rx: Arc::new(parking_lot::Mutex::new(rx)), c: Arc::new(c),
+        seq: Arc::new(parking_lot::Mutex::new(rng.next() as u16)),
+        full: Arc::new(parking_lot::Mutex::new(vec![false; NL])), _sock: Arc::new(sock_tx),
+    }
 }
 
 fn fnv64(b: &[u8]) -> u64 {
@@ -150,7 +158,8 @@ fn ext_block(els: &[(u8, Vec<u8>)], two_byte: bool, rng: &mut Rng) -> Option<Rtp
     Some(RtpHeaderExtension::new(if two_byte { 0x1000 } else { 0xBEDE }, d))
 }
 
-async fn apply(w: &mut World, act: &Value, rng: &mut Rng) -> Option<(u32, u16)> {
+/// A registry / life-cycle action (everything except a packet). Synchronous: usable from a sched callback.
+fn apply_ctl(w: &World, act: &Value, rng: &mut Rng) {
     match act["op"].as_str().unwrap() {
         "ssrc" => w.t.register_listener_sync(w.c.ssrc[li(&act["s"])], w.tx[li(&act["l"])].clone()),
         "rid" => w.t.register_rid_listener(w.c.rid[li(&act["r"])].clone(), w.tx[li(&act["l"])].clone()),
@@ -168,21 +177,21 @@ async fn apply(w: &mut World, act: &Value, rng: &mut Rng) -> Option<(u32, u16)> 
         "pt" => w.t.register_pt_listener(w.c.pt[li(&act["pt"])], w.tx[li(&act["l"])].clone()),
         "prov" => w.t.register_provisional_listener(w.tx[li(&act["l"])].clone()),
         "close" => {
-            w.rx[li(&act["l"])] = None;
+            w.rx.lock()[li(&act["l"])] = None;
         }
         "fill" => {
             // the receiver stops reading: fill the channel to capacity (harness-side, not via the transport)
             let l = li(&act["l"]);
             let filler = RtpPacket::new(RtpHeader::new(0, 0, 0, 0xF111_F111), vec![]);
             while w.tx[l].try_send((filler.clone(), "127.0.0.1:9".parse().unwrap())).is_ok() {}
-            w.full[l] = true;
+            w.full.lock()[l] = true;
         }
         "drain" => {
             let l = li(&act["l"]);
-            if let Some(r) = w.rx[l].as_mut() {
+            if let Some(r) = w.rx.lock()[l].as_mut() {
                 while r.try_recv().is_ok() {}
             }
-            w.full[l] = false;
+            w.full.lock()[l] = false;
         }
         "ext" => {
             let on = act["on"].as_bool().unwrap();
@@ -195,43 +204,121 @@ async fn apply(w: &mut World, act: &Value, rng: &mut Rng) -> Option<(u32, u16)> 
         "clear" => {
             w.t.clear_listeners();
         }
-        "pkt" => {
-            let ssrc = w.c.ssrc[li(&act["s"])];
-            w.seq = w.seq.wrapping_add(1);
-            let mut h = RtpHeader::new(w.c.pt[li(&act["pt"])], w.seq, rng.next() as u32, ssrc);
-            h.marker = rng.below(2) == 1;
-            let rid = act["rid"].as_u64().unwrap();
-            let mid = act["mid"].as_u64().unwrap();
-            let (rid_id, mid_id, other) = (w.c.rid_id, w.c.mid_id, w.c.other_id);
-            let rid_s = if rid > 0 { Some(w.c.rid[rid as usize - 1].clone()) } else { None };
-            let mid_s = if mid > 0 { Some(w.c.mid[mid as usize - 1].clone()) } else { None };
-            let mut els: Vec<(u8, Vec<u8>)> = Vec::new();
-            if rng.below(2) == 0 {
-                put_ext(&mut els, rid_id, other, rid_s.as_deref(), rng);
-                put_ext(&mut els, mid_id, other, mid_s.as_deref(), rng);
-            } else {
-                put_ext(&mut els, mid_id, other, mid_s.as_deref(), rng);
-                put_ext(&mut els, rid_id, other, rid_s.as_deref(), rng);
-            }
-            let two_byte = rng.below(3) == 0;
-            h.extension = ext_block(&els, two_byte, rng);
-            let n = rng.below(40) as usize;
-            let p = RtpPacket::new(h, rng.bytes(n));
-            let mut buf = Vec::new();
-            w.t.receive(Bytes::from(p.marshal().unwrap()), "127.0.0.1:5000".parse().unwrap(), &mut buf).await;
-            return Some((ssrc, w.seq));
-        }
         x => panic!("unknown op {x}"),
     }
-    None
+}
+
+/// One inbound RTP packet through `PacketReceiver::receive`.
+async fn apply_pkt(w: &World, act: &Value, rng: &mut Rng) -> (u32, u16) {
+    let ssrc = w.c.ssrc[li(&act["s"])];
+    let seq = {
+        let mut g = w.seq.lock();
+        *g = g.wrapping_add(1);
+        *g
+    };
+    let mut h = RtpHeader::new(w.c.pt[li(&act["pt"])], seq, rng.next() as u32, ssrc);
+    h.marker = rng.below(2) == 1;
+    let rid = act["rid"].as_u64().unwrap();
+    let mid = act["mid"].as_u64().unwrap();
+    let (rid_id, mid_id, other) = (w.c.rid_id, w.c.mid_id, w.c.other_id);
+    let rid_s = if rid > 0 { Some(w.c.rid[rid as usize - 1].clone()) } else { None };
+    let mid_s = if mid > 0 { Some(w.c.mid[mid as usize - 1].clone()) } else { None };
+    let mut els: Vec<(u8, Vec<u8>)> = Vec::new();
+    if rng.below(2) == 0 {
+        put_ext(&mut els, rid_id, other, rid_s.as_deref(), rng);
+        put_ext(&mut els, mid_id, other, mid_s.as_deref(), rng);
+    } else {
+        put_ext(&mut els, mid_id, other, mid_s.as_deref(), rng);
+        put_ext(&mut els, rid_id, other, rid_s.as_deref(), rng);
+    }
+    let two_byte = rng.below(3) == 0;
+    h.extension = ext_block(&els, two_byte, rng);
+    let n = rng.below(40) as usize;
+    let p = RtpPacket::new(h, rng.bytes(n));
+    let mut buf = Vec::new();
+    w.t.receive(Bytes::from(p.marshal().unwrap()), "127.0.0.1:5000".parse().unwrap(), &mut buf).await;
+    (ssrc, seq)
+}
+
+/// Execute a history. `pkt` is a packet with nobody else around. `begin, <ctl>*, send [, <ctl>*, remove]` is ONE
+/// packet with company: the control actions listed between `begin` and `send` run inside the callback of the
+/// scheduling point "rtp.demux.selected" (registry lock released, delivery not yet attempted), those between
+/// `send` and `remove` inside "rtp.demux.closed" (delivery failed, closed listener not yet forgotten) - exactly
+/// where another thread could run them. Returns what the last packet of the history was.
+async fn run_seq(w: &World, seq: &[&Value], rng: &mut Rng) -> Option<(u32, u16)> {
+    let mut i = 0;
+    let mut sent = None;
+    while i < seq.len() {
+        let a = seq[i];
+        let op = a["op"].as_str().unwrap();
+        let last_step;
+        if op == "pkt" {
+            sent = Some(apply_pkt(w, a, rng).await);
+            last_step = i;
+        } else if op == "begin" {
+            let mut j = i + 1;
+            let mut ga: Vec<Value> = Vec::new();
+            while j < seq.len() && seq[j]["op"] != "send" {
+                ga.push(seq[j].clone());
+                j += 1;
+            }
+            // j = index of "send" (or the end: the caller's act is the send)
+            let mut gb: Vec<Value> = Vec::new();
+            let mut k = j + 1;
+            let mut end = j;
+            let mut tmp = Vec::new();
+            while k < seq.len() && seq[k]["op"] != "begin" && seq[k]["op"] != "pkt" {
+                if seq[k]["op"] == "remove" {
+                    gb = tmp.clone();
+                    end = k;
+                    break;
+                }
+                tmp.push(seq[k].clone());
+                k += 1;
+            }
+            let hit = Arc::new(parking_lot::Mutex::new((0u32, 0u32)));
+            {
+                let (w2, hit2) = (w.clone(), hit.clone());
+                let r2 = parking_lot::Mutex::new(Rng(rng.next()));
+                rustrtc::verif::set_scheduler(Some(Arc::new(move |label: &'static str| {
+                    let group = match label {
+                        "rtp.demux.selected" => { hit2.lock().0 += 1; &ga }
+                        "rtp.demux.closed" => { hit2.lock().1 += 1; &gb }
+                        _ => return,
+                    };
+                    let mut r = r2.lock();
+                    for g in group {
+                        apply_ctl(&w2, g, &mut r);
+                    }
+                })));
+            }
+            sent = Some(apply_pkt(w, a, rng).await);
+            rustrtc::verif::set_scheduler(None);
+            if hit.lock().0 != 1 {
+                panic!("TOOL: scheduling point rtp.demux.selected was reached {} times in one receive()", hit.lock().0);
+            }
+            last_step = end.min(seq.len() - 1);
+        } else if op == "send" || op == "remove" {
+            panic!("TOOL: malformed history: {op} without begin");
+        } else {
+            apply_ctl(w, a, rng);
+            last_step = i;
+        }
+        i = last_step + 1;
+        if i < seq.len() {
+            poll(w, None);
+        }
+    }
+    sent
 }
 
 /// Which listeners hold a packet now (a listener appears once per packet it holds); drains them.
-fn poll(w: &mut World, sent: Option<(u32, u16)>) -> (Vec<u64>, bool) {
+fn poll(w: &World, sent: Option<(u32, u16)>) -> (Vec<u64>, bool) {
     let mut got = Vec::new();
     let mut intact = true;
-    for (i, r) in w.rx.iter_mut().enumerate() {
-        if w.full[i] {
+    let full = w.full.lock().clone();
+    for (i, r) in w.rx.lock().iter_mut().enumerate() {
+        if full[i] {
             continue; // its receiver is not reading: the queue stays at capacity
         }
         if let Some(r) = r {
@@ -285,13 +372,12 @@ fn run_demux(lines: &[Value], out: &mut NdjsonOut, shard: (usize, usize), hash_p
         steps += pre.len() as u64 + 1;
         let res = catch(|| {
             rt.block_on(async {
-                let mut w = fresh(&e["cfg"], &mut rng);
-                for a in pre {
-                    apply(&mut w, a, &mut rng).await;
-                    poll(&mut w, None);
-                }
-                let sent = apply(&mut w, &e["act"], &mut rng).await;
-                let (got, intact) = poll(&mut w, sent);
+                let w = fresh(&e["cfg"], &mut rng);
+                let mut seq: Vec<&Value> = pre.iter().collect();
+                seq.push(&e["act"]);
+                let sent = run_seq(&w, &seq, &mut rng).await;
+                let sent = if e["act"]["op"] == "pkt" || e["act"]["op"] == "send" { sent } else { None };
+                let (got, intact) = poll(&w, sent);
                 let nb = e["ext"]["bound"].as_array().map(|a| a.len()).unwrap_or(0);
                 let bound: Vec<bool> = (0..nb).map(|i| w.t.has_listener(w.c.ssrc[i])).collect();
                 (got, intact, bound)
